@@ -32,6 +32,11 @@ StepIv(e) ==
   /\ prev' = iv /\ hasPrev' = TRUE /\ UNCHANGED <<zid, segFrom, offs>>
   /\ Check(WellFormedInterval(iv), "interval_nonempty_and_wall_is_standard_plus_savings")
   /\ Check(iv.wall >= offs[1] /\ iv.wall <= offs[2], "wall_offset_within_advertised_min_max")
+  /\ (Has(e, "props") =>
+        /\ Check(~Has(e.props, "exc"), "interval_properties_must_not_raise")
+        /\ (Has(e.props, "duration") => Check(e.props.duration = Sub3(iv.end, iv.start), "interval_duration_is_end_minus_start"))
+        /\ (Has(e.props, "local_start") => Check(e.props.local_start = Add3(iv.start, OfSeconds(iv.wall)), "interval_local_bounds_are_instants_plus_wall_offset"))
+        /\ (Has(e.props, "local_end") => Check(e.props.local_end = Add3(iv.end, OfSeconds(iv.wall)), "interval_local_bounds_are_instants_plus_wall_offset")))
   /\ (Has(e, "fixed") => Check(iv.wall = e.fixed /\ iv.sav = 0 /\ iv.start = TMin /\ iv.end = TMax, "fixed_offset_zone_has_the_requested_offset"))
   /\ IF hasPrev
      THEN /\ Check(iv.start = prev.end, "intervals_abut_without_gap_or_overlap")
@@ -48,6 +53,15 @@ StepRequery(e) ==
   /\ UNCHANGED <<zid, prev, hasPrev, segFrom, offs>>
   /\ Check(Le3(e.start, e.at) /\ Lt3(e.at, e.end), "returned_interval_contains_the_instant_asked_for")
   /\ Check(e.same_as_walk /\ e.offset_agrees, "same_interval_whatever_was_asked_before")
+\* get_zone_intervals(window): consecutive intervals, the first containing the window's start, the last reaching its end
+StepIvs(e) ==
+  /\ UNCHANGED <<zid, prev, hasPrev, segFrom, offs>>
+  /\ Check(~Has(e, "exc"), "zone_intervals_of_a_window_must_not_raise")
+  /\ (Has(e, "n") =>
+        /\ Check(e.n >= 1 /\ Le3(e.starts[1], e.from) /\ Lt3(e.from, e.ends[1]), "first_listed_interval_contains_the_window_start")
+        /\ Check(\A k \in 1..(e.n - 1) : e.ends[k] = e.starts[k + 1], "listed_intervals_abut")
+        /\ Check(Le3(e.to, e.ends[e.n]) /\ Lt3(e.starts[e.n], e.to), "last_listed_interval_reaches_the_window_end_and_no_further")
+        /\ Check(e.same, "listed_intervals_are_the_walked_ones"))
 StepIvExc(e) == UNCHANGED <<zid, prev, hasPrev, segFrom, offs>> /\ Rej("every_instant_lies_in_exactly_one_interval")
 StepEndz(e) == /\ UNCHANGED <<zid, prev, hasPrev, segFrom, offs>>
                /\ Check(hasPrev /\ prev.end = TMax, "last_interval_extends_to_the_end_of_time")
@@ -123,6 +137,6 @@ StepSod(e) ==
 Next == /\ l <= Len(Events) /\ l' = l + 1
         /\ LET e == Events[l] IN
            CASE e.op = "zone" -> StepZone(e) [] e.op = "seg" -> StepSeg(e) [] e.op = "iv" -> StepIv(e)
-             [] e.op = "endz" -> StepEndz(e) [] e.op = "requery" -> StepRequery(e) [] e.op = "iv_exc" -> StepIvExc(e) [] e.op = "map" -> StepMap(e) [] e.op = "sod" -> StepSod(e)
+             [] e.op = "endz" -> StepEndz(e) [] e.op = "requery" -> StepRequery(e) [] e.op = "iv_exc" -> StepIvExc(e) [] e.op = "ivs" -> StepIvs(e) [] e.op = "map" -> StepMap(e) [] e.op = "sod" -> StepSod(e)
 Spec == Init /\ [][Next]_zvars
 =============================================================================
